@@ -1,10 +1,12 @@
 CONSTANTS
-  IDs = {"Chrome-120", "Firefox-120", "iOS-14"}
-  None = "-"
+  IDs = {"Chrome-120", "Firefox-120", "Randomized"}
+  RandIDs = {"Randomized"}
+  Seeds = {1, 2, 3, 4, 5, 6, 7, 8, 9, 10, 11, 12, 13, 14, 15, 16, 17, 18, 19, 20, 21, 22, 23, 24}
+  Canon = FALSE
   MaxSteps = 99
   MaxCallers = 2
 INIT TInit
 NEXT TNext
 CONSTRAINT Report
-INVARIANTS StartsWithWorking AtMostOnce FirstSuccess TcpErrorImmediate Recorded SeqPrefers
+INVARIANTS StartsWithWorking SameSeedAgain WorkingIsConcrete AtMostOnce FirstSuccess TcpErrorImmediate Recorded SeqPrefers
 CHECK_DEADLOCK FALSE
